@@ -117,9 +117,9 @@ def main(seed, ncases, driver, out):
             failures.append(dict(desc, kind="implementation-raises", error=type(e).__name__ + ": " + str(e)[:200])); continue
         evals += sum(len(v) for v in vals)
         if any(n != zero_n for n in deflog):
-            failures.append(dict(desc, kind="definition-evaluates-perturbation-terms", evaluated=sorted(set(map(list, deflog))))); continue
+            failures.append(dict(desc, kind="definition-evaluates-perturbation-terms", evaluated=[list(n) for n in sorted(set(deflog))])); continue
         if len(full) != len(set(full)):
-            dup = sorted(set(list(n) for n in full if full.count(n) > 1)); failures.append(dict(desc, kind="term-evaluated-twice", terms=dup)); continue
+            dup = [list(n) for n in sorted(set(n for n in full if full.count(n) > 1))]; failures.append(dict(desc, kind="term-evaluated-twice", terms=dup)); continue
         bad = None; cone_all = []
         for r, lg in zip(P["reqs"], per):
             cone_all += r["orders"]
